@@ -116,8 +116,9 @@ def run(tier, seed, replay=None):
         fjobs, fprogs = [], []
         for bp in bases:
             allm = [m for m in faults.all_faults(bp['sources']['Main'], 'generated')
-                    if faults.family(m['kind']) in ('operand-type', 'arg-type', 'match-arm', 'arity', 'typearg-arity', 'bound', 'interface')]
-            for m in fr.shuffle(allm)[:8]:
+                    if faults.family(m['kind']) in ('operand-type', 'arg-type', 'match-arm', 'arity', 'typearg-arity', 'bound', 'interface', 'branch-type')]
+            chain = [m for m in allm if faults.family(m['kind']) == 'branch-type']
+            for m in (fr.shuffle(chain)[:4] + fr.shuffle(allm)[:6]):
                 src = dict(bp['sources'])
                 src['Main'] = m['text']
                 fprogs.append({'sources': src, 'entry': 'Main', 'features': ['accepted-fault:' + m['kind']]})
